@@ -118,3 +118,14 @@ Example C17_ex :
   /\ incr (coords [(0, 1); (1, 2); (2, 3)]).
 Proof. vm_compute. repeat split; intros; intuition (subst; reflexivity || congruence). Qed.
 Print Assumptions C17_ex.
+
+(* ---- crop_dim as READ FROM THE SOURCE (Gen/Source.v is regenerated from
+   soundevent/arrays/operations.py and dimensions.py on every run; xarray's label slice is the model's
+   sel_slice): equal to the model on every input, errors included. ---- *)
+From SE Require Gen.Source Gen.SrcArrays.
+From SE Require Import Gen.Prelude.
+
+Theorem C17_src_crop_dim : forall a start stop rc lc eps,
+  Source.crop_dim a tt start stop rc lc eps = crop_dim a start stop rc lc eps.
+Proof. exact SrcArrays.src_crop_dim. Qed.
+Print Assumptions C17_src_crop_dim.
